@@ -1,164 +1,183 @@
 import Chain33Model.Model.C33
 /-!
-Helper lemmas for C33 / C34: when do the index operations of buildPendBlock stay in range.
+Helper lemmas for C33 / C34: the index operations of buildPendBlock stay in range for every queued block.
 -/
 namespace C33
 
 theorem setSlot_ok (l : Slots) (k : Nat) (v : TxId) (h : k < l.length) :
-    ∃ l', setSlot l k v = .ok l' ∧ l'.length = l.length := by
+    ∃ l', setSlot l k v = .ok l' ∧ l'.length = l.length ∧ ∀ j : Nat, l'[j]? = some none → l[j]? = some none := by
   induction l generalizing k with
   | nil => simp at h
   | cons x r ih =>
     cases k with
-    | zero => exact ⟨some v :: r, rfl, rfl⟩
+    | zero =>
+      refine ⟨some v :: r, rfl, rfl, ?_⟩
+      intro j hj
+      cases j with
+      | zero => simp at hj
+      | succ j => simpa using hj
     | succ k =>
       have hk : k < r.length := by simpa using h
-      obtain ⟨l', h1, h2⟩ := ih k hk
-      exact ⟨x :: l', by simp [setSlot, h1, Res.map], by simp [h2]⟩
-
-theorem setSlot_panic (l : Slots) (k : Nat) (v : TxId) (h : l.length ≤ k) : setSlot l k v = .panic := by
-  induction l generalizing k with
-  | nil => rfl
-  | cons x r ih =>
-    cases k with
-    | zero => simp at h
-    | succ k =>
-      have hk : r.length ≤ k := by simpa using h
-      simp [setSlot, ih k hk, Res.map]
+      obtain ⟨l', h1, h2, h3⟩ := ih k hk
+      refine ⟨x :: l', by simp [setSlot, h1, Res.map], by simp [h2], ?_⟩
+      intro j hj
+      cases j with
+      | zero => simpa using hj
+      | succ j => simpa using h3 j (by simpa using hj)
 
 theorem expand_ok (g : List TxId) (txs : Slots) (index j : Nat) (h : index + j + g.length ≤ txs.length) :
-    ∃ t, expand txs index g j = .ok t ∧ t.length = txs.length := by
+    ∃ t, expand txs index g j = .ok t ∧ t.length = txs.length ∧ ∀ i : Nat, t[i]? = some none → txs[i]? = some none := by
   induction g generalizing txs j with
-  | nil => exact ⟨txs, rfl, rfl⟩
+  | nil => exact ⟨txs, rfl, rfl, fun _ h => h⟩
   | cons a gs ih =>
     have hlt : index + j < txs.length := by simp at h; omega
-    obtain ⟨t1, h1, hl1⟩ := setSlot_ok txs (index + j) a hlt
+    obtain ⟨t1, h1, hl1, hs1⟩ := setSlot_ok txs (index + j) a hlt
     have h' : index + (j + 1) + gs.length ≤ t1.length := by simp at h; omega
-    obtain ⟨t2, h2, hl2⟩ := ih t1 (j + 1) h'
-    exact ⟨t2, by simp [expand, h1, h2], by omega⟩
+    obtain ⟨t2, h2, hl2, hs2⟩ := ih t1 (j + 1) h'
+    exact ⟨t2, by simp [expand, h1, h2], by omega, fun i hi => hs1 i (hs2 i hi)⟩
 
-/-- every group reachable through a hash of the block fits behind its slot -/
-def GroupsFit (pool : Pool) (hashes : List SH) (n : Nat) : Prop :=
-  ∀ i h t, hashes[i]? = some h → pool.get h = some t → i + t.group.length ≤ n
-
-/-- executable check of `GroupsFit` (used for the non-vacuity examples) -/
-def groupsFitFrom (pool : Pool) (n : Nat) : List SH → Nat → Bool
-  | [], _ => true
-  | h :: r, i =>
-    (match pool.get h with
-     | none => true
-     | some t => decide (i + t.group.length ≤ n)) && groupsFitFrom pool n r (i + 1)
-
-theorem groupsFitFrom_sound (pool : Pool) (n : Nat) (l : List SH) (i : Nat) (hb : groupsFitFrom pool n l i = true) :
-    ∀ j h t, l[j]? = some h → pool.get h = some t → (i + j) + t.group.length ≤ n := by
-  induction l generalizing i with
-  | nil => intro j h t hj; simp at hj
-  | cons a r ih =>
-    simp only [groupsFitFrom, Bool.and_eq_true] at hb
-    intro j h t hj hg
-    cases j with
-    | zero =>
-      simp at hj; subst hj
-      have := hb.1
-      rw [hg] at this
-      simpa using this
-    | succ j =>
-      have := ih (i + 1) hb.2 j h t (by simpa using hj) hg
-      omega
-
-theorem groupsFit_of_check (pool : Pool) (hashes : List SH) (n : Nat) (hb : groupsFitFrom pool n hashes 0 = true) :
-    GroupsFit pool hashes n := by
-  intro i h t hi hg
-  have := groupsFitFrom_sound pool n hashes 0 hb i h t hi hg
-  omega
-
-/-- work list entries point into the block and carry the hash of their slot -/
-def WorkOk (hashes : List SH) (n : Nat) (w : List (Nat × SH)) : Prop :=
-  ∀ e ∈ w, e.1 < n ∧ hashes[e.1]? = some e.2
-
-theorem fill_ok (pool : Pool) (hashes : List SH) (w : List (Nat × SH)) (txs : Slots) (ok : Bool)
-    (hw : WorkOk hashes txs.length w) (hg : GroupsFit pool hashes txs.length) :
-    ∃ r, fill pool w txs ok = .ok r ∧ r.1.length = txs.length := by
+/-- the second loop never indexes out of range (repaired code), keeps the length and only fills slots -/
+theorem fill_total (pool : Pool) (w : List (Nat × SH)) (txs : Slots) (ok : Bool)
+    (hw : ∀ e ∈ w, e.1 < txs.length) :
+    ∃ r, fill pool w txs ok = .ok r ∧ r.1.length = txs.length ∧ ∀ j : Nat, r.1[j]? = some none → txs[j]? = some none := by
   induction w generalizing txs ok with
-  | nil => exact ⟨(txs, ok), rfl, rfl⟩
+  | nil => exact ⟨(txs, ok), rfl, rfl, fun _ h => h⟩
   | cons e w ih =>
     obtain ⟨index, h⟩ := e
-    have he := hw (index, h) (by simp)
-    have hw' : WorkOk hashes txs.length w := fun e he' => hw e (by simp [he'])
-    have hlt : index < txs.length := he.1
+    have hlt : index < txs.length := hw (index, h) (by simp)
+    have hw' : ∀ e ∈ w, e.1 < txs.length := fun e he => hw e (by simp [he])
     have hget : txs[index]? = some txs[index] := List.getElem?_eq_getElem hlt
     unfold fill
     rw [hget]
     cases hx : txs[index] with
-    | some v => simpa using ih txs ok hw' hg
+    | some v => simpa using ih txs ok hw'
     | none =>
       simp only
       cases hp : pool.get h with
-      | none => simpa using ih txs false hw' hg
+      | none => simpa using ih txs false hw'
       | some t =>
         simp only
-        obtain ⟨t1, h1, hl1⟩ := setSlot_ok txs index t.id hlt
-        have hfit := hg index h t he.2 hp
-        obtain ⟨t2, h2, hl2⟩ := expand_ok t.group t1 index 0 (by omega)
-        rw [h1]; simp only; rw [h2]; simp only
-        have hl : t2.length = txs.length := by omega
-        obtain ⟨r, hr, hrl⟩ := ih t2 ok (by rw [hl]; exact hw') (by rw [hl]; exact hg)
-        exact ⟨r, hr, by omega⟩
+        split
+        · exact ih txs false hw'
+        · rename_i hfit
+          obtain ⟨t1, h1, hl1, hs1⟩ := setSlot_ok txs index t.id hlt
+          obtain ⟨t2, h2, hl2, hs2⟩ := expand_ok t.group t1 index 0 (by omega)
+          rw [h1]; simp only; rw [h2]; simp only
+          have hl : t2.length = txs.length := by omega
+          obtain ⟨r, hr, hrl, hrs⟩ := ih t2 ok (by rw [hl]; exact hw')
+          exact ⟨r, hr, by omega, fun j hj => hs1 j (hs2 j (hrs j hj))⟩
 
-theorem missing_ok (hashes : List SH) (txs : Slots) (i n : Nat) (hn : i + txs.length = n) (h : n ≤ hashes.length) :
-    ∃ w, missing hashes txs i = .ok w ∧ WorkOk hashes n w := by
+/-- every empty slot of the block has a short hash: `sTxHashes[i]` of the first loop is in range -/
+def Cover (hashes : List SH) (txs : Slots) (i : Nat) : Prop := ∀ j : Nat, txs[j]? = some none → i + j < hashes.length
+
+theorem missing_total (hashes : List SH) (txs : Slots) (i : Nat) (hc : Cover hashes txs i) :
+    ∃ w, missing hashes txs i = .ok w ∧ ∀ e ∈ w, i ≤ e.1 ∧ e.1 < i + txs.length := by
   induction txs generalizing i with
   | nil => exact ⟨[], rfl, fun e he => by simp at he⟩
   | cons x r ih =>
-    have hn' : (i + 1) + r.length = n := by simp at hn; omega
-    obtain ⟨w, hw, hwo⟩ := ih (i + 1) hn'
+    have hc' : Cover hashes r (i + 1) := by
+      intro j hj
+      have := hc (j + 1) (by simpa using hj)
+      omega
+    obtain ⟨w, hw, hwi⟩ := ih (i + 1) hc'
     cases x with
-    | some v => exact ⟨w, by simp [missing, hw], hwo⟩
+    | some v =>
+      refine ⟨w, by simp [missing, hw], ?_⟩
+      intro e he; have := hwi e he; simp; omega
     | none =>
-      have hi : i < hashes.length := by simp at hn; omega
+      have hi : i < hashes.length := by simpa using hc 0 (by simp)
       have hget : hashes[i]? = some hashes[i] := List.getElem?_eq_getElem hi
       refine ⟨(i, hashes[i]) :: w, by simp [missing, hget, hw, Res.map], ?_⟩
       intro e he
       simp at he
       rcases he with rfl | he
-      · exact ⟨by simp at hn; omega, hget⟩
-      · exact hwo e he
+      · simp
+      · have := hwi e he; simp; omega
+
+theorem missing_cover (hashes : List SH) (txs : Slots) (i : Nat) (w : List (Nat × SH))
+    (h : missing hashes txs i = .ok w) : Cover hashes txs i := by
+  induction txs generalizing i w with
+  | nil => intro j hj; simp at hj
+  | cons x r ih =>
+    cases x with
+    | some v =>
+      simp only [missing] at h
+      intro j hj
+      cases j with
+      | zero => simp at hj
+      | succ j => have := ih (i + 1) w h j (by simpa using hj); omega
+    | none =>
+      simp only [missing] at h
+      split at h
+      · simp at h
+      · rename_i hh hget
+        cases hm : missing hashes r (i + 1) with
+        | panic => simp [hm, Res.map] at h
+        | ok w' =>
+          intro j hj
+          cases j with
+          | zero =>
+            have : i < hashes.length := by
+              rcases Nat.lt_or_ge i hashes.length with h1 | h1
+              · exact h1
+              · rw [List.getElem?_eq_none h1] at hget; simp at hget
+            simpa using this
+          | succ j => have := ih (i + 1) w' hm j (by simpa using hj); omega
 
 /-- a queued / fresh pending block on which buildPendBlock cannot index out of range -/
-def PendOk (pool : Pool) (pd : Pend) : Prop :=
-  pd.txs.length ≤ pd.hashes.length ∧ GroupsFit pool pd.hashes pd.txs.length
+def PendOk (pd : Pend) : Prop := Cover pd.hashes pd.txs 0
 
-theorem build_ok (pool : Pool) (pd : Pend) (h : PendOk pool pd) :
-    ∃ r, build pool pd = .ok r ∧ r.pd.txs.length = pd.txs.length ∧ r.pd.hashes = pd.hashes := by
+theorem build_total (pool : Pool) (pd : Pend) (h : PendOk pd) :
+    ∃ r, build pool pd = .ok r ∧ PendOk r.pd := by
   unfold build
   split
-  · exact ⟨_, rfl, rfl, rfl⟩
-  · obtain ⟨w, hw, hwo⟩ := missing_ok pd.hashes pd.txs 0 pd.txs.length (by simp) h.1
+  · exact ⟨_, rfl, h⟩
+  · obtain ⟨w, hw, hwi⟩ := missing_total pd.hashes pd.txs 0 h
     rw [hw]; simp only
     split
-    · exact ⟨_, rfl, rfl, rfl⟩
-    · obtain ⟨r, hr, hrl⟩ := fill_ok pool pd.hashes w pd.txs true hwo h.2
+    · exact ⟨_, rfl, h⟩
+    · obtain ⟨r, hr, hrl, hrs⟩ := fill_total pool w pd.txs true (fun e he => by have := hwi e he; omega)
       rw [hr]
       obtain ⟨txs, ok⟩ := r
+      have hc : Cover pd.hashes txs 0 := fun j hj => h j (hrs j hj)
       simp only
-      split
-      · exact ⟨_, rfl, by simpa using hrl, rfl⟩
-      · exact ⟨_, rfl, by simpa using hrl, rfl⟩
+      split <;> exact ⟨_, rfl, hc⟩
 
-theorem pendList_ok (pool : Pool) (now timeout : Int) (l : List Pend) (h : ∀ pd ∈ l, PendOk pool pd) :
-    ∃ r, pendList pool now timeout l = .ok r := by
+/-- whatever `build` returns without panicking leaves a block that can be built again -/
+theorem build_keeps_ok (pool : Pool) (pd : Pend) (r : BuildOut) (h : build pool pd = .ok r) (hd : r.done = false) :
+    PendOk r.pd := by
+  have hpd : PendOk pd := by
+    unfold build at h
+    split at h
+    · simp at h; subst h; simp at hd
+    · split at h
+      · simp at h
+      · rename_i w hw
+        exact missing_cover _ _ _ _ hw
+  obtain ⟨r', hr', hok⟩ := build_total pool pd hpd
+  rw [h] at hr'
+  simp at hr'; subst hr'; exact hok
+
+theorem pendList_total (pool : Pool) (now timeout : Int) (l : List Pend) (h : ∀ pd ∈ l, PendOk pd) :
+    ∃ keep posted tmo, pendList pool now timeout l = .ok (keep, posted, tmo) ∧ ∀ pd ∈ keep, PendOk pd := by
   induction l with
-  | nil => exact ⟨_, rfl⟩
+  | nil => exact ⟨[], [], [], rfl, fun _ h => by simp at h⟩
   | cons pd rest ih =>
-    obtain ⟨r, hr, _⟩ := build_ok pool pd (h pd (by simp))
-    obtain ⟨r2, hr2⟩ := ih (fun q hq => h q (by simp [hq]))
+    obtain ⟨r, hr, hrok⟩ := build_total pool pd (h pd (by simp))
+    obtain ⟨keep, posted, tmo, hr2, hk⟩ := ih (fun q hq => h q (by simp [hq]))
     unfold pendList
     rw [hr]; simp only; rw [hr2]
-    obtain ⟨keep, posted, tmo⟩ := r2
     simp only
     split
-    · split <;> exact ⟨_, rfl⟩
-    · split <;> exact ⟨_, rfl⟩
+    · split <;> exact ⟨_, _, _, rfl, hk⟩
+    · split
+      · exact ⟨_, _, _, rfl, hk⟩
+      · refine ⟨_, _, _, rfl, ?_⟩
+        intro q hq
+        simp at hq
+        rcases hq with rfl | hq
+        · exact hrok
+        · exact hk q hq
 
 theorem reqList_ok (s : State) (l : List BlockReq) (h : s.chain ≠ .items 0) : ∃ r, reqList s l = .ok r := by
   induction l with
@@ -180,6 +199,10 @@ theorem reqList_ok (s : State) (l : List BlockReq) (h : s.chain ≠ .items 0) : 
     rw [ho]; simp only; rw [hr]
     obtain ⟨keep, outs⟩ := r
     cases o <;> exact ⟨_, rfl⟩
+
+/-- executable check of "the group behind every hash fits" (non-vacuity examples of C34) -/
+def GroupsFit (pool : Pool) (hashes : List SH) (n : Nat) : Prop :=
+  ∀ i h t, hashes[i]? = some h → pool.get h = some t → i + t.group.length ≤ n
 
 /-! ### inputs (definitions used by the property statements of Props/C33.lean) -/
 
